@@ -297,6 +297,10 @@ struct Twin {
   Op gen_op(bool allow_meaning_preserving) {
     Op o;
     o.other = (int)r.below(NP);
+    if (r.chance(1, 10)) { // extrapolation operators keep extra state in the copy-on-write wrapper
+      o.k = r.chance(3, 4) ? O_WIDEN : O_NARROW;
+      return o;
+    }
     int k = (int)r.below(allow_meaning_preserving ? 34 : 31);
     if (k < 5) {
       o.k = O_ASSIGN;
